@@ -347,6 +347,9 @@ pub async fn quiescence_check(
 enum FaultPoint {
     Store { k: u64, fault: Fault, crash: bool },
     Ext { op: ExtOp, nth: u32, fault: Fault, crash: bool },
+    /// put_if_not_exists fails (either way) and the writer's follow-up `get` ("who owns the
+    /// version?") fails as well; the writer survives
+    PutThenGetFails { nth: u32, fault: Fault },
 }
 
 impl FaultPoint {
@@ -359,6 +362,13 @@ impl FaultPoint {
                     Fault::LostReply => "lost_reply",
                 },
                 if *crash { "crash" } else { "transient" }
+            ),
+            FaultPoint::PutThenGetFails { fault, .. } => format!(
+                "{}/transient+get_fails",
+                match fault {
+                    Fault::FailBefore => "fail_before",
+                    Fault::LostReply => "lost_reply",
+                }
             ),
         }
     }
@@ -467,6 +477,9 @@ async fn crash_scenario(report: &Report, seed: u64, idx: u64, matrix: &Mutex<BTr
                 for crash in [true, false] {
                     points.push((FaultPoint::Ext { op, nth, fault, crash }, step.to_string()));
                 }
+                if op == ExtOp::PutIfNotExists {
+                    points.push((FaultPoint::PutThenGetFails { nth, fault }, step.to_string()));
+                }
             }
         }
     }
@@ -508,6 +521,16 @@ async fn crash_scenario(report: &Report, seed: u64, idx: u64, matrix: &Mutex<BTr
                 fault: *fault,
                 crash: *crash,
             }]),
+            FaultPoint::PutThenGetFails { nth, fault } => {
+                let c = wc.ext.as_ref().unwrap();
+                c.set_faults(vec![ExtFault {
+                    op: ExtOp::PutIfNotExists,
+                    nth: *nth,
+                    fault: *fault,
+                    crash: false,
+                }]);
+                c.set_fail_get_after_put_fault(true);
+            }
         }
         let res = guarded(ops::apply(&final_op, &wc.actor, URI), 20).await;
         let (client, res_txt) = match res {
